@@ -432,6 +432,14 @@ class Escapes:
                     break
             t = T.of(fi, e)
             v = may_be_big_int(t)
+            # the bounds of a range come from the template's data: `f"{r.start}..{r.stop - 1}"` of a value narrowed to range
+            stack = [e]
+            while stack:
+                x = stack.pop()
+                if isinstance(x, ast.Attribute) and x.attr in ("start", "stop", "step") and "range" in (T.of(fi, x.value) or ""):
+                    v, t = True, "object"
+                if isinstance(x, (ast.BinOp, ast.UnaryOp)):  # arithmetic on a bound is still that bound; a call (a converter) is not
+                    stack += list(ast.iter_child_nodes(x))
             if t == "Exception" and isinstance(e, ast.Name):
                 # str(err) of a caught KeyError/LookupError is the repr of the key, a data value
                 for a in mod.ancestors(at):
